@@ -226,6 +226,15 @@ Theorem C06_rn_valid_denotes : forall (R : rcfType) (x : rnum), rn_valid x = tru
 Proof. exact rn_valid_denotes. Qed.
 Print Assumptions C06_rn_valid_denotes.
 
+(* the interval count in the form consumed by the reference arithmetic on algebraic numbers
+   (RefAlgArith.count_open_correct_premise, which additionally assumes coprimep (pr r) (pr r)' - not needed) *)
+Theorem C06_count_open_correct : forall (R : rcfType) (r : list Z) (l h : Z * Z),
+  qpos l -> qpos h -> (qr l < qr h :> R) -> Poly r != 0 ->
+  ((pr r).[qr l] != 0 :> R) -> ((pr r).[qr h] != 0 :> R) ->
+  count_open r l h = size (roots (pr r : {poly R}) (qr l) (qr h)).
+Proof. exact count_open_correct. Qed.
+Print Assumptions C06_count_open_correct.
+
 (* ---- what is NOT proved (kept as statements so that the gap is visible) *)
 
 (* libpoly's own algorithm (faithful model) always produces an accepted list *)
